@@ -27,14 +27,18 @@
   `2 * entities.length < 2^32` (removal; `entities.length + 1 < 2^32` for the others) — the model's
   `capPow2` and the "no table" marker `maxU32` need them, as everywhere in `Ark.Proofs`.
 
-  FINDINGS (hypotheses the proofs forced, violated by reachable states; § 4):
+  FINDINGS (hypotheses the proofs forced; § 4) — defect D18 of the Go library, REPAIRED:
   * `RelListsOK` — the relation list `relIDs` of a non-free table names every relation column
     exactly once with the target stored in the column.  `cleanupArchetypes` reads `relIDs`, not
-    the columns, and `MatchesExact` compares lengths.  A call naming one relation component
-    twice is accepted (`createTable` only checks `len(relations) ≥ numRelations`), and afterwards
-    (a) `RemoveEntity` of an unrelated alive target PANICS (`relUnspecified`), and
-    (b) `RemoveEntity` of a target silently zeroes a relation to ANOTHER, still alive, target.
-    The creation theorem therefore asks that the call names no relation component twice.
+    the columns, and `MatchesExact` compares lengths.  Before the repair a call naming one
+    relation component twice was accepted (`createTable` only checked
+    `len(relations) ≥ numRelations`), and afterwards
+    (a) `RemoveEntity` of an unrelated alive target PANICKED (`relUnspecified`), and
+    (b) `RemoveEntity` of a target silently zeroed a relation to ANOTHER, still alive, target.
+    The repaired `createTable` (and the model, `checkRelList`) rejects such a call with
+    "relation component %d specified more than once" (`relTwice`); § 4 shows the rejection of
+    both histories.  The creation theorem still asks that the call names no relation component
+    twice (left as it was; every accepted call now satisfies it, `createTable_ok_nodup`).
 -/
 import Ark.Proofs.TargetsAdd
 
@@ -348,46 +352,96 @@ example : (∀ (r : RelID), r ∈ [(⟨0, p1⟩ : RelID)] →
     ∃ (r : RelID), r ∈ [(⟨0, p1⟩ : RelID)] ∧ r.target.isZero = false ∧ d9.alive r.target = false := by
   decide +kernel
 
-/-! ## 4. findings: what goes wrong when a relation component is named twice
+/-! ## 4. findings (defect D18, repaired): a relation component named twice is rejected
 
-Both worlds are built with the model's own operations from valid handles; the only unusual call
-is a `NewEntity` whose relation list names relation component 0 twice (accepted, see
-`Ark/Props/C01Struct.lean` § 7).  They violate `RelListsOK`, which is why the creation theorem
-asks for `(rels.map (·.comp)).Nodup`. -/
+Before the repair of `storage.createTable` the two histories below — built with the model's own
+operations from valid handles; the only unusual call is a `NewEntity` whose relation list names
+relation component 0 twice — were ACCEPTED and violated `RelListsOK` (which is why the creation
+theorem asks for `(rels.map (·.comp)).Nodup`):
+(a) afterwards `RemoveEntity` of an unrelated alive target panicked "relation targets must be
+    fully specified"; (b) `RemoveEntity` of a target zeroed a relation to another, alive target.
+The repaired `createTable` panics "relation component %d specified more than once"
+(`relTwice`, `Ark/Props/C01Struct.lean` § 7: `createTable_rejects_twice`) on every path.  What the
+model says, exactly: the call panics `relTwice`; no entity and no table is created; entity index,
+pool, tables, cache, lock are as before; the archetype `findOrCreateTable` created before calling
+`createTable` stays behind without a table (as after a `deadTarget` rejection on the unsafe
+path).  The world is still `Good`-shaped for what follows: the same calls without the repetition
+are accepted and then behave as the property says. -/
 
-/-- (a) the duplicated relation has the ZERO target; `RemoveEntity` of the alive, unrelated
-    target 3 then panics "relation targets must be fully specified" -/
-def f0 : World :=
+/-- (a) before the call: relation component 0, entities 2 and 3 -/
+def f0pre : World :=
   let w := World.init 1 1
   let w := (registerComponent { isRel := true } w).state
   let w := (opNewEntity0 noRun w).state                                                -- 2
-  let w := (opNewEntity0 noRun w).state                                                -- 3
-  let w := (opNewEntity noRun .unsafe_ [0] [] [⟨0, Ent.zero⟩, ⟨0, Ent.zero⟩] w).state   -- 4
-  (opNewEntity noRun .unsafe_ [0] [] [⟨0, ⟨3, 0⟩⟩] w).state                             -- 5
+  (opNewEntity0 noRun w).state                                                         -- 3
 
+/-- (a) the call of the finding: relation 0 named twice, both with the ZERO target -/
+def f0try (p : Path) : Res World Ent :=
+  opNewEntity noRun p [0] [] [⟨0, Ent.zero⟩, ⟨0, Ent.zero⟩] f0pre
+
+/-- (a) the world left by the rejected call, then a child (entity 4) of entity 3 -/
+def f0 : World := (opNewEntity noRun .unsafe_ [0] [] [⟨0, ⟨3, 0⟩⟩] (f0try .unsafe_).state).state
+
+/-- (a) rejected on every path; nothing but the (table-less) archetype `{0}` was created -/
 example :
-    f0.alive ⟨3, 0⟩ = true ∧ f0.isLocked = false ∧
-    panicOf (opRemoveEntity noRun ⟨3, 0⟩ f0) = some .relUnspecified ∧
-    ((f0.tbl 1).relIDs.length, (f0.arch 1).numRel) = (2, 1) := by
+    panicOf (f0try .unsafe_) = some .relTwice ∧ panicOf (f0try .map1) = some .relTwice ∧
+    panicOf (f0try .typed) = some .relTwice ∧
+    (f0try .unsafe_).state.tables = f0pre.tables ∧
+    (f0try .unsafe_).state.entities = f0pre.entities ∧
+    (f0try .unsafe_).state.pool = f0pre.pool ∧ (f0try .unsafe_).state.cache = f0pre.cache ∧
+    (f0try .unsafe_).state.isLocked = false ∧
+    (f0pre.archetypes.length, (f0try .unsafe_).state.archetypes.length) = (1, 2) ∧
+    ((f0try .unsafe_).state.arch 1).tables.tables = [] ∧
+    ((f0try .unsafe_).state.arch 1).freeTables = [] := by
   decide +kernel
 
-/-- (b) entity 4 has relation 0 → entity 2 (alive throughout) and relation 1 → entity 3; its
-    relation list names component 0 twice.  Removing entity 3 zeroes BOTH relations -/
-def f1 : World :=
+/-- (a) what panicked before the repair works: `RemoveEntity` of the alive target 3 is accepted
+    and zeroes the relation of its child 4; the table's relation list has one entry per relation
+    column -/
+example :
+    f0.alive ⟨3, 0⟩ = true ∧ f0.isLocked = false ∧ targetOf f0 4 0 = some ⟨3, 0⟩ ∧
+    panicOf (opRemoveEntity noRun ⟨3, 0⟩ f0) = none ∧
+    targetOf (opRemoveEntity noRun ⟨3, 0⟩ f0).state 4 0 = some Ent.zero ∧
+    ((f0.tbl 1).relIDs.length, (f0.arch 1).numRel) = (1, 1) := by
+  decide +kernel
+
+/-- (b) before the call: relation components 0 and 1, entities 2 and 3 -/
+def f1pre : World :=
   let w := World.init 1 1
   let w := (registerComponent { isRel := true } w).state
   let w := (registerComponent { isRel := true } w).state
   let w := (opNewEntity0 noRun w).state                                                -- 2
-  let w := (opNewEntity0 noRun w).state                                                -- 3
-  (opNewEntity noRun .unsafe_ [0, 1] [] [⟨0, ⟨3, 0⟩⟩, ⟨0, ⟨2, 0⟩⟩, ⟨1, ⟨3, 0⟩⟩] w).state  -- 4
+  (opNewEntity0 noRun w).state                                                         -- 3
+
+/-- (b) the call of the finding: relation 0 → 3, relation 0 → 2 (again), relation 1 → 3 -/
+def f1try (p : Path) : Res World Ent :=
+  opNewEntity noRun p [0, 1] [] [⟨0, ⟨3, 0⟩⟩, ⟨0, ⟨2, 0⟩⟩, ⟨1, ⟨3, 0⟩⟩] f1pre
+
+/-- (b) the world left by the rejected call, then entity 4 with relation 0 → 2, relation 1 → 3 -/
+def f1 : World :=
+  (opNewEntity noRun .unsafe_ [0, 1] [] [⟨0, ⟨2, 0⟩⟩, ⟨1, ⟨3, 0⟩⟩] (f1try .unsafe_).state).state
 
 def f2 : World := (opRemoveEntity noRun ⟨3, 0⟩ f1).state
 
+/-- (b) rejected on every path; no entity 4, no table -/
+example :
+    panicOf (f1try .unsafe_) = some .relTwice ∧ panicOf (f1try .map1) = some .relTwice ∧
+    panicOf (f1try .typed) = some .relTwice ∧
+    (f1try .unsafe_).state.tables = f1pre.tables ∧
+    (f1try .unsafe_).state.entities = f1pre.entities ∧
+    (f1try .unsafe_).state.pool = f1pre.pool ∧ (f1try .unsafe_).state.cache = f1pre.cache ∧
+    (f1try .unsafe_).state.alive ⟨4, 0⟩ = false ∧
+    (f1pre.archetypes.length, (f1try .unsafe_).state.archetypes.length) = (1, 2) ∧
+    ((f1try .unsafe_).state.arch 1).tables.tables = [] := by
+  decide +kernel
+
+/-- (b) with each relation named once: removing entity 3 zeroes the relation to 3 and ONLY that
+    one; the relation to the alive entity 2 is kept (before the repair both were zeroed) -/
 example :
     (targetOf f1 4 0, targetOf f1 4 1) = (some ⟨2, 0⟩, some ⟨3, 0⟩) ∧
     panicOf (opRemoveEntity noRun ⟨3, 0⟩ f1) = none ∧
     f2.alive ⟨2, 0⟩ = true ∧
-    (targetOf f2 4 0, targetOf f2 4 1) = (some Ent.zero, some Ent.zero) := by
+    (targetOf f2 4 0, targetOf f2 4 1) = (some ⟨2, 0⟩, some Ent.zero) := by
   decide +kernel
 
 end Ark.Props.C04World
